@@ -91,13 +91,20 @@ fn failing_unlinks_exec(k: &usize, ctx: &crate::explore::WorkerCtx) -> crate::ex
 
 /// Every source of process identifiers on one node: spawned processes and the reply-to identifiers of remote calls (read off
 /// the wire), interleaved; all pairwise distinct, all with the node's creation, references likewise.
-fn identifier_sources_exec(case: &(bool, Option<u32>, bool), ctx: &crate::explore::WorkerCtx) -> crate::explore::ExecResult {
-    let (started, epmd_creation, early_use) = *case;
+thread_local! { static PEER_FLAGS_MASK: std::cell::Cell<u64> = const { std::cell::Cell::new(u64::MAX) }; }
+
+fn identifier_sources_exec(case: &(bool, Option<u32>, bool, Option<usize>), ctx: &crate::explore::WorkerCtx) -> crate::explore::ExecResult {
+    let (started, epmd_creation, early_use, reply_cut) = *case;
+    // a reply cut of 100 stands for "the peer does not offer BIG_CREATION (0x40000)" instead of a cut
+    let reply_cut = if reply_cut == Some(100) { PEER_FLAGS_MASK.with(|c| c.set(!0x40000u64)); None } else { reply_cut };
+    crate::world::set_epmd_reply_cut(reply_cut);
     crate::world::set_epmd_creation(epmd_creation);
     crate::world::set_pre_start_use(early_use);
     let out = identifier_sources_inner(started, epmd_creation, ctx);
     crate::world::set_epmd_creation(None);
+    crate::world::set_epmd_reply_cut(None);
     crate::world::set_pre_start_use(false);
+    PEER_FLAGS_MASK.with(|c| c.set(u64::MAX));
     out
 }
 
@@ -131,7 +138,7 @@ fn identifier_sources_inner(started: bool, epmd_creation: Option<u32>, ctx: &cra
             res.outcome = "unstarted".into();
             return res;
         }
-        let mut nw = match crate::c17::node_world(ctx, crate::c17::flags_default()).await {
+        let mut nw = match crate::c17::node_world(ctx, crate::c17::flags_default() & PEER_FLAGS_MASK.with(|c| c.get())).await {
             Ok(x) => x,
             Err(e) => { res.violations.push(("could not establish the connection under a conforming peer".into(), json!({"error": e}))); return res; }
         };
@@ -203,7 +210,12 @@ fn identifier_sources_inner(started: bool, epmd_creation: Option<u32>, ctx: &cra
 
 pub fn run(rep: &Report) -> Value {
     // (node started?, creation EPMD assigns, identifiers made before start)
-    let src = [(true, None, false), (false, None, false), (true, Some(2), false), (true, Some(0x1_0001), false), (true, Some(u32::MAX), false), (true, Some(0x1_0001), true), (true, None, true), (true, Some(1), true), (true, Some(1), false)];
+    // (node started?, creation EPMD assigns, identifiers made before start, EPMD replies cut after that many bytes)
+    let mut src = vec![(true, None, false, None), (false, None, false, None), (true, Some(2), false, None), (true, Some(0x1_0001), false, None), (true, Some(u32::MAX), false, None), (true, Some(0x1_0001), true, None), (true, None, true, None), (true, Some(1), true, None), (true, Some(1), false, None)];
+    for cut in 1..=5usize { src.push((true, Some(0x0102_0304), false, Some(cut))); }
+    src.push((true, Some(0xA1B2_C3D4), false, Some(3)));
+    src.push((true, Some(0x1_0001), false, Some(100)));
+    src.push((true, Some(2), false, Some(100)));
     let st_src = crate::explore::for_all(rep, "all sources of process identifiers", &src, |k, ctx| identifier_sources_exec(k, ctx));
     let ks: Vec<usize> = (0..=6).collect();
     let st_u = crate::explore::for_all(rep, "references around failing unlinks", &ks, |k, ctx| failing_unlinks_exec(k, ctx));
